@@ -553,3 +553,134 @@ Theorem C07_selection_group_guard_refuted :
   exists h s, StronglySorted (hle h) s /\ ~ grp (S (length s)) (concat (map group_func3 (runs h s))).
 Proof. exact group_guard_refuted. Qed.
 Print Assumptions C07_selection_group_guard_refuted.
+
+(* ---------------------------------------------------------------- round 8: generated call sequences, index selection, pvFill *)
+From C07 Require Gen_Protocol.
+From Coq Require Import String.
+From C07 Require Import ProtoSyntax ProtoSem ProtoProofs FitSem UHashSem UHashProofs FillModel.
+Local Open Scope string_scope.
+
+(* The statement trees of DataIndexes::AddRaw / RemoveRaw / UpdateRaw(old,new) / UpdateRaw(raw, offset, item, assigner) are
+   DUMPED from DataIndexes.h on every run (Gen_Protocol.v) and executed, loop by loop and call by call in the dumped order, by
+   ProtoSem's interpreter: they ARE the hand model's add_raw / remove_raw / update_raw / update_col, for every index state,
+   failure schedule, entry order and visibility relation. *)
+Theorem C07_generated_AddRaw_is_model :
+  forall fixu fixm ord R ct fl s raw,
+  run_tree fixu fixm ord R ct Gen_Protocol.AddRaw (upd empty_env "raw" (IRaw raw)) fl s = Some (add_raw ord R ct fl s raw, false).
+Proof. exact generated_AddRaw. Qed.
+Print Assumptions C07_generated_AddRaw_is_model.
+
+Theorem C07_generated_RemoveRaw_is_model :
+  forall fixu fixm ord R ct fl s raw,
+  run_remove_tree fixu fixm ord R ct Gen_Protocol.RemoveRaw (upd empty_env "raw" (IRaw raw)) fl s
+  = Some (remove_raw fixu fixm R ct fl s raw).
+Proof. exact generated_RemoveRaw. Qed.
+Print Assumptions C07_generated_RemoveRaw_is_model.
+
+Theorem C07_generated_UpdateRaw_is_model :
+  forall fixu fixm ord R ct fl s old new,
+  run_tree fixu fixm ord R ct Gen_Protocol.UpdateRaw2 (upd (upd empty_env "oldRaw" (IRaw old)) "newRaw" (IRaw new)) fl s
+  = Some (update_raw fixu fixm ord R ct fl s old new, false).
+Proof. exact generated_UpdateRaw2. Qed.
+Print Assumptions C07_generated_UpdateRaw_is_model.
+
+Theorem C07_generated_UpdateRawColumn_is_model :
+  forall fixu fixm ord R ct fl s raw c v,
+  run_col_tree fixu fixm ord R ct Gen_Protocol.UpdateRawCol raw c v fl s =
+  Some (fst (update_col fixu fixm ord R ct fl s raw c v),
+        match snd (fst (update_col fixu fixm ord R ct fl s raw c v)) with Accepted => true | _ => false end).
+Proof. exact generated_UpdateRawCol. Qed.
+Print Assumptions C07_generated_UpdateRawColumn_is_model.
+
+(* "on refusal or exception every index is as before" for the call sequences that are in the source today *)
+Theorem C07_generated_sequences_atomic :
+  forall fixu fixm ord R ct fl s, wf s ->
+  (forall raw s' o b, Forall (row_absent_m raw) (mhs s) ->
+     run_tree fixu fixm ord R ct Gen_Protocol.AddRaw (upd empty_env "raw" (IRaw raw)) fl s = Some (s', o, b) ->
+     o <> Accepted -> rolled_back s s' /\ b = false) /\
+  (forall old new s' o b, Forall (row_absent_u new) (uhs s) -> Forall (row_absent_m new) (mhs s) ->
+     run_tree fixu fixm ord R ct Gen_Protocol.UpdateRaw2 (upd (upd empty_env "oldRaw" (IRaw old)) "newRaw" (IRaw new)) fl s
+       = Some (s', o, b) ->
+     o <> Accepted -> rolled_back s s' /\ b = false) /\
+  (forall raw c v s' o b,
+     run_col_tree fixu fixm ord R ct Gen_Protocol.UpdateRawCol raw c v fl s = Some (s', o, b) ->
+     o <> Accepted -> rolled_back s s' /\ b = false).
+Proof. exact generated_sequences_atomic. Qed.
+Print Assumptions C07_generated_sequences_atomic.
+
+(* UniqueHash member functions as dumped from the source = the hand model's functions (positions distinct, a remembered
+   position occupied, Add uses a fresh position) *)
+Theorem C07_generated_uniquehash_add :
+  forall ord R ct tag u raw old, tags_nodup u -> (forall e, In e (uents u) -> etag e <> tag) ->
+  urun ord R ct tag Gen_Protocol.U_Add2 u (uupd (uupd env0 "raw" (UVraw raw)) "oldRaw" (UVraw old)) =
+  Some (fst (u_add ord R ct u raw (Some old) tag), Some (UVraw (snd (u_add ord R ct u raw (Some old) tag)))).
+Proof. exact gen_Add2. Qed.
+Print Assumptions C07_generated_uniquehash_add.
+
+Theorem C07_generated_uniquehash_add_mixed :
+  forall ord R ct tag u raw c v, tags_nodup u -> (forall e, In e (uents u) -> etag e <> tag) ->
+  urun ord R ct tag Gen_Protocol.U_AddMixed u (uupd env0 "hashMixedKey" (UVmixed raw c v)) =
+  Some (fst (u_add_mixed ord R ct u raw c v tag), Some (UVraw (snd (u_add_mixed ord R ct u raw c v tag)))).
+Proof. exact gen_AddMixed. Qed.
+Print Assumptions C07_generated_uniquehash_add_mixed.
+
+(* PrepareRemove with the linear fallback scan of 4f7b624 *)
+Theorem C07_generated_uniquehash_prepare_remove :
+  forall ord R ct tag u raw, tags_nodup u -> uprem u = None ->
+  urun ord R ct tag Gen_Protocol.U_PrepareRemove u (uupd env0 "raw" (UVraw raw)) = Some (u_prepare_remove true R ct u raw, None).
+Proof. exact gen_PrepareRemove. Qed.
+Print Assumptions C07_generated_uniquehash_prepare_remove.
+
+Theorem C07_generated_uniquehash_reject_accept :
+  forall ord R ct tag u,
+  urun ord R ct tag Gen_Protocol.U_RejectAdd0 u env0 = Some (u_reject_add u, None) /\
+  urun ord R ct tag Gen_Protocol.U_AcceptAdd0 u env0 = Some (u_accept_add u, None) /\
+  urun ord R ct tag Gen_Protocol.U_RejectRemove u env0 = Some (u_reject_remove u, None) /\
+  urun ord R ct tag Gen_Protocol.U_AcceptRemove u env0 = Some (u_accept_remove u, None) /\
+  (forall raw, urun ord R ct tag Gen_Protocol.U_AcceptAdd1 u (uupd env0 "raw" (UVraw raw)) = Some (u_accept_add_raw u raw, None)) /\
+  (forall raw, tags_nodup u -> pos_occupied u ->
+     urun ord R ct tag Gen_Protocol.U_RejectAdd1 u (uupd env0 "raw" (UVraw raw)) = Some (u_reject_add_raw u raw, None)).
+Proof. exact gen_reject_accept. Qed.
+Print Assumptions C07_generated_uniquehash_reject_accept.
+
+(* FRAME for the unique hash: every member function that writes mHashSet keeps the positions distinct and bounded *)
+Theorem C07_uniquehash_ops_frame :
+  forall ord R ct tag o n u, n <= tag -> upos_ok n u -> upos_ok (S tag) (uapply ord R ct tag o u).
+Proof. exact uniquehash_ops_frame. Qed.
+Print Assumptions C07_uniquehash_ops_frame.
+
+(* Index selection: the dumped GetFitUniqueHashIndex / GetFitMultiHashIndex are fit_unique / fit_multi ... *)
+Theorem C07_generated_fit_is_model :
+  forall us ms q,
+  run_fit Gen_Protocol.GetFitUniqueHashIndex us ms q = Some (fit_unique us q) /\
+  run_fit Gen_Protocol.GetFitMultiHashIndex us ms q = Some (fit_multi ms q).
+Proof. exact generated_fit. Qed.
+Print Assumptions C07_generated_fit_is_model.
+
+(* ... and the index they choose exists and ALL its columns are equality columns of the query; the multi index chosen has
+   the most keys among the covering ones, and none is chosen only if every covering multi index is empty *)
+Theorem C07_fit_index_covers_query :
+  forall us ms q,
+  (forall j, fit_unique us q = Some j -> exists cols kc, nth_error us j = Some (cols, kc) /\ incl cols q) /\
+  match fit_multi ms q with
+  | Some j => exists cols kc, nth_error ms j = Some (cols, kc) /\ incl cols q /\ 0 < kc /\
+                forall i' cols' kc', nth_error ms i' = Some (cols', kc') -> includes q cols' = true -> kc' <= kc
+  | None => forall i cols kc, nth_error ms i = Some (cols, kc) -> includes q cols = true -> kc = 0
+  end.
+Proof. exact fit_covers. Qed.
+Print Assumptions C07_fit_index_covers_query.
+
+(* pvFill (copy / filter-copy constructors) with the code as it is now: for every failure point nothing is destroyed twice
+   and nothing leaks although pvDestroyRaws runs twice (handler + destructor) *)
+Theorem C07_fill_failure_safe :
+  forall fl rows, NoDup rows ->
+  let '(st, threw) := copy_construct true fl rows in
+  f_ok st = true /\ (if threw then f_live st = [] /\ f_raws st = [] else f_live st = rows /\ f_raws st = rows).
+Proof. exact fill_failure_safe. Qed.
+Print Assumptions C07_fill_failure_safe.
+
+(* ... and the handler without mRaws.Clear() (before 91ea186) destroys a row twice *)
+Theorem C07_fill_without_clear_refuted :
+  exists fl rows, NoDup rows /\ f_ok (fst (copy_construct false fl rows)) = false.
+Proof. exact fill_without_clear_refuted. Qed.
+Print Assumptions C07_fill_without_clear_refuted.
